@@ -38,7 +38,7 @@ PROOF_FAILURE_PATTERNS = (
     "could not prove termination", "might not be allowed", "unable to prove", "fails to satisfy",
 )
 LOG_MACROS = ("trace", "debug", "info", "warn", "error")
-SUBST_KINDS = ("closure-contract", "std-wrap", "std-wrap-all", "verus-syntax", "split-or-guard", "for-ghost-iter")
+SUBST_KINDS = ("closure-contract", "std-wrap", "std-wrap-all", "verus-syntax", "split-or-guard", "for-ghost-iter", "assoc-type", "eta-ctor")
 
 
 class ExtractError(Exception):
@@ -256,6 +256,15 @@ def _validate_subst(kind, old, new, template_text):
         w = m.group(1)
         if not re.search(r"#\[verifier::external_body\]\s*(?:pub\s+)?fn\s+%s\b" % w, template_text):
             raise ExtractError(f"std-wrap: wrapper {w} is not an external_body fn of the template")
+    elif kind == "assoc-type":
+        # `Self::Name` -> the type the enclosing impl binds with `type Name = T;` (checked by the caller against the source)
+        if not re.match(r"^Self::\w+$", old.strip()):
+            raise ExtractError("assoc-type: old text must be `Self::<Name>`")
+    elif kind == "eta-ctor":
+        # a tuple-variant constructor used as a function value is eta-expanded: `E::V` -> `|e| E::V(e)`
+        m = re.match(r"^\|(\w+)\|\s*([\w:]+)\((\w+)\)$", new.strip())
+        if not m or m.group(1) != m.group(3) or m.group(2) != old.strip():
+            raise ExtractError("eta-ctor: replacement must be `|e| <old>(e)`")
     elif kind == "for-ghost-iter":
         # `for PAT in EXPR` -> `for PAT' in NAME: EXPR` where PAT' is PAT or `_x` for `_` (names the loop's ghost iterator)
         mo = re.match(r"^for\s+(\S+)\s+in\s+(.+)$", old.strip(), re.S)
@@ -330,14 +339,26 @@ def extract_fn(repo, d, template_text):
         sig, body = _resplit(whole)
     for s in d.get("subst", []):
         old, new, kind = s["old"].strip(), s["new"].strip(), s["kind"]
+        if kind == "assoc-type":
+            nm = old.split("::")[1]
+            binds = re.findall(r"type\s+%s\s*=\s*([^;]+);" % re.escape(nm), src)
+            if not any(rustscan.norm_ws(b) == rustscan.norm_ws(new) for b in binds):
+                raise ExtractError(f"assoc-type: the source has no `type {nm} = {new};`")
+            cnt = (sig + body).count(old)
+            if cnt < 1:
+                raise ExtractError(f"lost anchor: {old} does not occur")
+            sig, body = _resplit((sig + body).replace(old, new))
+            tr.append({"kind": kind, "old": old, "new": new, "occurrences": cnt})
+            continue
         whole = sig + body
         if kind == "std-wrap-all":
             # every occurrence of a receiver expression is routed through a trusted accessor
-            cnt = whole.count(old)
+            rx, _ = _meta_regex(old)
+            cnt = len(re.findall(rx, whole))
             if cnt < 1:
                 raise ExtractError(f"lost anchor: SUBST std-wrap-all text does not occur: {old[:80]!r}")
             _validate_subst(kind, old, new, template_text)
-            whole = whole.replace(old, new)
+            whole = re.sub(rx, lambda _m: new, whole)
             sig, body = _resplit(whole)
             tr.append({"kind": kind, "old": old, "new": new, "occurrences": cnt})
             continue
